@@ -203,6 +203,48 @@ def check_sweep(case, rec):
                              automorphism_filter=False)
                     if r is None:
                         return
+    if z > 115:
+        return
+    # generic atoms and element lists (the element bit sits in word 1 up to Ba and in word 2 above it)
+    from chython.periodictable import AnyElement, AnyMetal, ListElement
+    m = _mol1(cls, None, 0, False)
+    sym = cls.__name__
+    partners = [Element.from_atomic_number(k).__name__ for k in ((z + 1 - 1) % 115 + 1, (z + 30 - 1) % 115 + 1, 6, 78, 79, 92, 56, 57)]
+    partners = [p for p in dict.fromkeys(partners) if p != sym]
+    generic = [('A', AnyElement()), ('M', AnyMetal())] + [(f'{sym},{p}', ListElement([sym, p])) for p in partners] + \
+              [(f'{p},{sym}', ListElement([p, sym])) for p in partners[:3]] + \
+              [(f'{partners[0]},{partners[-1]},{sym}', ListElement([partners[0], partners[-1], sym])),
+               (f'{partners[2]},{partners[3]}', ListElement([partners[2], partners[3]]))]
+    for text, qa in generic:
+        rec.evaluations += 1
+        if both(_q1(qa), m, rec, f'[{text}] on [{sym}]', automorphism_filter=False) is None:
+            return
+        rec.nt((z, 'generic', text))
+    # ring closure onto / next to the element: five-membered ring X-C-C-C-C, query numbered from X and from the opposite carbon
+    from chython import MoleculeContainer, QueryContainer
+    ring = MoleculeContainer()
+    ring.add_atom(cls(), 1)
+    for i in range(2, 6):
+        ring.add_atom('C', i)
+    for i in range(1, 6):
+        ring.add_bond(i, i % 5 + 1, 1)
+    for start in (1, 3, 5):
+        order = [(start - 1 + k) % 5 + 1 for k in range(5)]
+        q = QueryContainer('ring')
+        for n in order:
+            q.add_atom(qcls() if n == 1 else QueryElement.from_symbol('C')(), n)
+        for a, b in zip(order, order[1:]):
+            q.add_bond(a, b, 1)
+        q.add_bond(order[-1], order[0], 1)  # the ring-closure bond of the query
+        rec.evaluations += 1
+        ref = both(q, ring, rec, f'five-membered ring query numbered from atom {start} on [{sym}]1CCCC1', automorphism_filter=False)
+        if ref is None:
+            return
+        if len(ref) != (10 if z == 6 else 2):
+            rec.fail('sweep-ring', f'ring query on [{sym}]1CCCC1 (numbered from {start}): {len(ref)} mappings by both paths, '
+                                   f'{10 if z == 6 else 2} expected')
+            return
+        rec.nt((z, 'ring', start))
     rec.sample('sweep', dict(element=cls.__name__, isotopes=isos), cap=3)
 
 
